@@ -77,8 +77,34 @@ def skeleton(run, scr):
     return problems
 
 
-def native(scr):
-    src = open(os.path.join(vlib.VERIF, 'replay', 'c16_drop.rs')).read()
+def witness_code(kind, vals):
+    """Rust block that rebuilds the <1,1> key object of the failing monolithic Kani harness from its concrete-playback values
+    and drops it natively (fields in the order of the harness' kani::any() calls)"""
+    def arr_u8(b):
+        return '[' + ', '.join(str(x) + 'u8' for x in b) + ']'
+    def arr_i32(b):
+        import struct
+        return '[' + ', '.join(str(x) + 'i32' for x in struct.unpack('<256i', b)) + ']'
+    try:
+        if kind == 'pk':
+            stream = b''.join(vals)      # arrays are drawn element by element: slice the concatenated stream by field sizes
+            assert len(stream) >= 32 + 64 + 1024
+            rho, tr, t1 = stream[0:32], stream[32:96], stream[96:1120]
+            obj = f'crate::types::PublicKey::<1, 1> {{ rho: {arr_u8(rho)}, tr: {arr_u8(tr)}, t1_d2_hat_mont: [crate::types::T({arr_i32(t1)})] }}'
+        else:
+            stream = b''.join(vals)
+            assert len(stream) >= 128 + 3 * 1024
+            rho, k, tr = stream[0:32], stream[32:64], stream[64:128]
+            s1, s2, t0 = stream[128:1152], stream[1152:2176], stream[2176:3200]
+            obj = (f'crate::types::PrivateKey::<1, 1> {{ rho: {arr_u8(rho)}, cap_k: {arr_u8(k)}, tr: {arr_u8(tr)}, s_1_hat_mont: [crate::types::T({arr_i32(s1)})], '
+                   f's_2_hat_mont: [crate::types::T({arr_i32(s2)})], t_0_hat_mont: [crate::types::T({arr_i32(t0)})] }}')
+    except Exception:  # noqa: BLE001 - playback layout not as expected: no witness block
+        return ''
+    return f'{{ let n = survivors({obj}); if n != 0 {{ std::println!("ml_dsa_ solver witness ({kind}<1,1> from Kani concrete playback): {{}} byte(s) survive drop", n); bad += 1; }} }}'
+
+
+def native(scr, witness=''):
+    src = open(os.path.join(vlib.VERIF, 'replay', 'c16_drop.rs')).read().replace('// @WITNESS@', witness)
     res = {}; msgs = []
     for rel in (False, True):
         oc, out = vlib.native_test(scr, src, 'c16_drop_all', release=rel)
@@ -123,8 +149,14 @@ def run(run, scr, tier, seed, only=None):
             problems.append((r.h.name, r.detail))
     run.add_kani_results(results)
     if problems:
-        res, msgs = native(scr)
-        path = vlib.save_replay('C16', 'drop', {'property': 'C16', 'kind': 'drop', 'problems': [list(p) for p in problems], 'native': res, 'native_msgs': msgs})
+        witness = ''
+        for r in results:
+            if r.status == 'failed' and r.h.name.endswith(('c16_drop_pk_11', 'c16_drop_sk_11')):
+                vals, _ = vlib.kani_playback_values(scr, r.h)
+                if vals:
+                    witness += witness_code('pk' if r.h.name.endswith('pk_11') else 'sk', vals)
+        res, msgs = native(scr, witness)
+        path = vlib.save_replay('C16', 'drop', {'property': 'C16', 'kind': 'drop', 'problems': [list(p) for p in problems], 'native': res, 'native_msgs': msgs, 'witness': witness})
         if 'fail' in res.values():
             run.violation('drop-erasure', f'key object not fully erased on drop: {problems[:3]} ; native: {msgs[:4]} {res}', path)
         else:
@@ -137,7 +169,7 @@ def run(run, scr, tier, seed, only=None):
 
 
 def replay(run, scr, path):
-    res, msgs = native(scr)
+    res, msgs = native(scr, json.load(open(path)).get('witness', ''))
     vlib.log(f'replay {path}: {res} {msgs[:4]}')
     if 'fail' in res.values():
         vlib.log(f'VIOLATION property=C16 replay={path}')
